@@ -374,6 +374,6 @@ def sources(tree, sel, probe_cfg, variant):
     if sel.get("user_main") and variant == "multi":
         src[usermain.INCLUDE_NAME] = usermain.text(tree, sel["user_main"])
     if sel.get("added_unit") and variant == "multi":
-        for relname, text in addedunit.FILES.items():
+        for relname, text in addedunit.files(sel["added_unit"]).items():
             src[relname] = text
     return src
